@@ -7,6 +7,8 @@ import os
 
 from .. import common, segcore as sc, boxwalk
 
+FIX = '/repo/tests/fixtures'
+
 RULE = ('synthetic representations in vod mode (as C02) with $Number$ over start-1..start+n and $Time$ of every static '
         'timeline entry; fixture files bbb_* and tears_*: indexed with Representation.load, SegmentList ranges compared '
         'with the box structure; HTTP: vod numbers of every fixture representation, vod/odvod manifests parsed and '
@@ -148,6 +150,129 @@ def run(ctx):
     from .. import seghttp
     seghttp.suite(ctx, 'C06')
     static_manifests(ctx)
+    gapless_tracks(ctx)
+
+
+def strip_tfdt(data):
+    """a copy of a fragmented file in which no fragment has a tfdt box (the box is optional; the server then writes one when it
+    serves a segment): the box is cut out of every moof, the sizes of moof and traf and trun.data_offset are reduced by its
+    size; styp / sidx are dropped.  Own byte surgery on the independent walker's offsets."""
+    import struct
+    from .. import boxwalk
+    out = bytearray()
+    for b in boxwalk.parse(data):
+        if b.type in (b'styp', b'sidx'):
+            continue
+        if b.type != b'moof':
+            out += b.raw
+            continue
+        traf = b.find('traf')
+        tfdt, trun = traf.find('tfdt'), traf.find('trun')
+        raw = bytearray(b.raw)
+        if tfdt is not None:
+            def add32(abs_pos, delta):
+                rel = abs_pos - b.start
+                raw[rel:rel + 4] = struct.pack('>I', struct.unpack('>I', raw[rel:rel + 4])[0] + delta)
+            if int.from_bytes(trun.payload[1:4], 'big') & 1:
+                add32(trun.payload_start + 8, -tfdt.size)
+            add32(traf.start, -tfdt.size)
+            add32(b.start, -tfdt.size)
+            rel = tfdt.start - b.start
+            del raw[rel:rel + tfdt.size]
+        out += raw
+    return bytes(out)
+
+
+def stored_track(data):
+    """(first decode time or 0, [fragment durations]) of a stored fragmented file, by the independent walker"""
+    from .. import boxwalk
+    root = boxwalk.Root(data)
+    dd = boxwalk.trex_default_duration(root)
+    first, durs = None, []
+    for b in root.children:
+        if b.type != b'moof':
+            continue
+        traf = b.find('traf')
+        th, tr = boxwalk.tfhd_fields(traf), boxwalk.trun_fields(traf)
+        d0 = th['default_sample_duration'] if th['default_sample_duration'] is not None else dd
+        durs.append(sum(s_.get('duration', d0 or 0) for s_ in tr['samples']))
+        if first is None:
+            first = boxwalk.tfdt_time(traf) or 0
+    return first or 0, durs
+
+
+def gapless_tracks(ctx):
+    """the media segments of a static presentation, fetched in order over HTTP, form one gapless track: decode times start at
+    the file's first decode time, each segment starts where the previous one ended, durations are the stored ones, the segment
+    after the last answers 404.  Streams: the fixture as stored, and a copy whose audio / video fragments carry no tfdt box."""
+    from ..appenv import AppEnv, Clock, utc
+    from .. import boxwalk
+    import logging
+    env = AppEnv(ctx.workdir + '/gapless', streams=('bbb',))
+    logging.disable(logging.CRITICAL)
+    tmp = os.path.join(ctx.workdir, 'gapless-src')
+    os.makedirs(tmp, exist_ok=True)
+    files = {}
+    for stem, new in (('bbb_v7', 'nt_v7'), ('bbb_a1', 'nt_a1'), ('bbb_a2', 'nt_a2')):
+        src = os.path.join(FIX, 'bbb', stem + '.mp4')
+        if not os.path.exists(src):
+            continue
+        path = os.path.join(tmp, new + '.mp4')
+        with open(path, 'wb') as f:
+            f.write(strip_tfdt(open(src, 'rb').read()))
+        files[new] = path
+    try:
+        env.add_custom_stream('notfdt', files)
+    except Exception as e:  # noqa
+        ctx.violation('a stream whose fragments carry no tfdt box cannot be indexed: %s %s' % (type(e).__name__, str(e)[:100]),
+                      {'files': sorted(files)})
+        files = {}
+    c = env.client()
+    tracks = [('bbb', 'bbb_a1', os.path.join(FIX, 'bbb', 'bbb_a1.mp4')), ('bbb', 'bbb_v7', os.path.join(FIX, 'bbb', 'bbb_v7.mp4'))]
+    tracks += [('notfdt', stem, path) for stem, path in sorted(files.items())]
+    with Clock(utc(2024, 3, 5, 12, 0, 7)):
+        for directory, stem, path in tracks:
+            first, durs = stored_track(open(path, 'rb').read())
+            ext = 'm4a' if '_a' in stem else 'm4v'
+            with env.app.app_context():
+                rep = env.models.MediaFile.get(name=stem).representation
+                sn, dd = rep.start_number, None
+            init = c.get('/dash/vod/%s/%s/init.%s' % (directory, stem, ext))
+            if init.status_code == 200:
+                dd = boxwalk.trex_default_duration(boxwalk.Root(init.data))
+            expected, total, ok = first, 0, True
+            for k in range(len(durs) + 1):
+                url = '/dash/vod/%s/%s/%d.%s' % (directory, stem, sn + k, ext)
+                r = c.get(url)
+                ctx.count('http:gapless-segment')
+                inp = {'url': url, 'stored_fragments': len(durs), 'tfdt_in_file': directory != 'notfdt'}
+                if k == len(durs):
+                    if r.status_code != 404:
+                        ctx.violation('%s: the segment after the last stored one answers %d' % (url, r.status_code), inp)
+                    continue
+                if r.status_code != 200:
+                    ctx.violation('%s: stored segment %d of %d answers %d' % (url, k + 1, len(durs), r.status_code), inp)
+                    ok = False
+                    break
+                try:
+                    sm = boxwalk.segment_summary(r.data, dd)
+                except Exception as e:  # noqa
+                    ctx.violation('%s: the served segment cannot be walked: %s' % (url, e), inp)
+                    ok = False
+                    break
+                if sm['tfdt'] != expected:
+                    ctx.violation('%s: decode time %s, the previous segment ended at %d (segment %d of %d%s)' % (
+                        url, sm['tfdt'], expected, k + 1, len(durs), '' if directory != 'notfdt' else '; file without tfdt boxes'), inp)
+                    ok = False
+                if sm['duration'] != durs[k]:
+                    ctx.violation('%s: lasts %d, the stored fragment lasts %d' % (url, sm['duration'], durs[k]), inp)
+                    ok = False
+                expected = (sm['tfdt'] if sm['tfdt'] is not None else expected) + sm['duration']
+                total += sm['duration']
+            if ok and total == sum(durs):
+                ctx.nontriv(('gapless', directory, stem))
+            ctx.dist('gapless:%s:%s' % (directory, 'ok' if ok else 'broken'))
+    env.close()
 
 
 def static_manifests(ctx):
